@@ -5,6 +5,8 @@ package sonic
 import (
 	"io"
 
+	"github.com/talostrading/sonic/internal"
+
 	"github.com/talostrading/sonic/internal/vf"
 )
 
@@ -25,6 +27,9 @@ func VerifBufState(b *ByteBuffer) (si, ri, wi, capv int) {
 func VerifBufRaw(b *ByteBuffer) []byte { return b.data[:cap(b.data)] }
 
 func VerifBufInv(b *ByteBuffer) bool { return c09Inv(b) }
+
+// VerifPoller exposes the IO's poller to harnesses of other packages.
+func VerifPoller(ioc *IO) internal.Poller { return ioc.poller }
 
 // ---- scripted transport: a Stream whose peer is the harness ----
 
